@@ -2057,11 +2057,12 @@ func (p *Prog) pureFn(f *ssa.Function) bool {
 // ---------------------------------------------------------------------------
 // R40 ERROR-DISCIPLINE (C06, C05, C01, C14): no error of a module or standard-library call is
 // dropped, except in the idioms this repository already uses and that were confirmed by reading:
-//   (a) Close() inside a deferred closure (clean-up on a path that already fails, or of a handle that
-//       was only read from) and `defer x.Close()`;
-//   (b) writes into a hash (hash.Hash.Write never fails);
-//   (c) frozen: index.GetVersion in Segment.Recover (an unreadable version means the index is removed
-//       and not rewritten, which the next open rebuilds).
+//
+//	(a) Close() inside a deferred closure (clean-up on a path that already fails, or of a handle that
+//	    was only read from) and `defer x.Close()`;
+//	(b) writes into a hash (hash.Hash.Write never fails);
+//	(c) frozen: index.GetVersion in Segment.Recover (an unreadable version means the index is removed
+//	    and not rewritten, which the next open rebuilds).
 func ruleR40(p *Prog) []Ob {
 	var obs []Ob
 	props := []string{"C06", "C05", "C01", "C14", "C11", "C12", "C17", "C20"}
@@ -2591,9 +2592,9 @@ func (p *Prog) headerFlagsExact() []Ob {
 		for _, f := range sortedKeys(found) {
 			ob := Ob{Rule: "R9", Inst: "h:header-flag-exact:" + f, Props: []string{"C13", "C04", "C11"}, Pos: p.posStr(fn.Pos()), Func: funcLabel(fn), Nontrivial: true}
 			if found[f] == "exact" {
-				ob.Status, ob.Msg = Discharged, "the recorded " + f + " flag is compared with the option for (in)equality: a mismatch in either direction is rejected"
+				ob.Status, ob.Msg = Discharged, "the recorded "+f+" flag is compared with the option for (in)equality: a mismatch in either direction is rejected"
 			} else {
-				ob.Status, ob.Msg = Violated, "the recorded " + f + " flag is only tested where the option is set: an index that has the column although the option is off is accepted and then read with the wrong item stride"
+				ob.Status, ob.Msg = Violated, "the recorded "+f+" flag is only tested where the option is set: an index that has the column although the option is off is accepted and then read with the wrong item stride"
 			}
 			obs = append(obs, ob)
 		}
@@ -2785,4 +2786,373 @@ func (p *Prog) whoMayRemoveSegment() []Ob {
 		ob.Status, ob.Msg = Discharged, fmt.Sprintf("%d call sites of the %d function(s) that remove a segment's log, all in a head writer's / segment reader's Delete or a rewrite's own clean-up", sites, len(removers))
 	}
 	return []Ob{ob}
+}
+
+// ---------------------------------------------------------------------------
+// R26b PREBUILT-INDEX-STAYS (C19, C03): where Open found no segment files, the reader it builds
+// answers from an index installed at construction; there is nothing to load it from again, so that
+// reader is flagged as the head (the only readers GC never unloads).
+func (p *Prog) prebuiltIndexStays() []Ob {
+	r := p.R
+	open := r.Open
+	head := p.srHeadField()
+	ob := Ob{Rule: "R26", Inst: "b:prebuilt-index-stays", Props: []string{"C19", "C03"}, Pos: "-", Func: funcLabel(open), Nontrivial: true}
+	if open == nil || head == nil {
+		ob.Status, ob.Msg = Undecided, "Open or the head flag of the segment reader not found"
+		return []Ob{ob}
+	}
+	// the list of segments Open works with
+	isSegList := func(v ssa.Value) bool {
+		ex, ok := canon(v).(*ssa.Extract)
+		if !ok || ex.Index != 0 {
+			return false
+		}
+		c, ok := ex.Tuple.(*ssa.Call)
+		if !ok {
+			return false
+		}
+		sl, ok := ex.Type().Underlying().(*types.Slice)
+		return ok && namedOf(sl.Elem()) == r.Segment && c.Common().StaticCallee() != nil
+	}
+	emptyEdge := func(iff *ssa.If) int {
+		x, y, op, ok := relCond(iff.Cond)
+		if !ok {
+			return -1
+		}
+		lc, ok := x.(*ssa.Call)
+		if !ok || !isBuiltinCall(lc.Common(), "len") || !isSegList(lc.Call.Args[0]) {
+			return -1
+		}
+		k, isK := constInt(y)
+		if !isK || k != 0 {
+			return -1
+		}
+		switch op {
+		case token.EQL, token.LEQ:
+			return 0
+		case token.NEQ, token.GTR:
+			return 1
+		}
+		return -1
+	}
+	inEmptyBranch := func(b *ssa.BasicBlock) bool {
+		for _, hb := range open.Blocks {
+			if iff, ok := terminator(hb).(*ssa.If); ok {
+				if e := emptyEdge(iff); e >= 0 && edgeDominates(hb, e, b) {
+					return true
+				}
+			}
+		}
+		return false
+	}
+	var bad []string
+	n := 0
+	for _, b := range open.Blocks {
+		if !inEmptyBranch(b) {
+			continue
+		}
+		for _, ins := range b.Instrs {
+			c, ok := ins.(*ssa.Call)
+			if !ok {
+				continue
+			}
+			g := c.Common().StaticCallee()
+			if g == nil || !inModule(g) || g.Blocks == nil || g.Signature.Results().Len() == 0 {
+				continue
+			}
+			pt, ok := g.Signature.Results().At(0).Type().(*types.Pointer)
+			if !ok || namedOf(pt.Elem()) != r.SegReader {
+				continue
+			}
+			// does the constructor pre-install an index, and what does it store in the head flag?
+			preinstalls, headTrue := false, false
+			for _, gb := range g.Blocks {
+				for _, gi := range gb.Instrs {
+					st, ok := gi.(*ssa.Store)
+					if !ok {
+						continue
+					}
+					fa, ok := st.Addr.(*ssa.FieldAddr)
+					if !ok {
+						continue
+					}
+					switch fieldVarOfAddr(fa) {
+					case r.SRIndex:
+						if !isNilConst(st.Val) {
+							preinstalls = true
+						}
+					case head:
+						if k, ok := st.Val.(*ssa.Const); ok && k.Value != nil && k.Value.String() == "true" {
+							headTrue = true
+						}
+						if pr, ok := st.Val.(*ssa.Parameter); ok {
+							for i, q := range g.Params {
+								if q == pr && i < len(c.Call.Args) {
+									if k, ok := c.Call.Args[i].(*ssa.Const); ok && k.Value != nil && k.Value.String() == "true" {
+										headTrue = true
+									}
+								}
+							}
+						}
+					}
+				}
+			}
+			if !preinstalls {
+				continue
+			}
+			n++
+			// or Open sets the flag on the result itself
+			for _, ob2 := range open.Blocks {
+				for _, oi := range ob2.Instrs {
+					if st, ok := oi.(*ssa.Store); ok {
+						if fa, ok := st.Addr.(*ssa.FieldAddr); ok && fieldVarOfAddr(fa) == head && canon(fa.X) == ssa.Value(c) {
+							if k, ok := st.Val.(*ssa.Const); ok && k.Value != nil && k.Value.String() == "true" {
+								headTrue = true
+							}
+						}
+					}
+				}
+			}
+			if !headTrue {
+				bad = append(bad, fmt.Sprintf("%s: %s builds a reader over a segment without files, with a prebuilt index, that is not flagged as the head", p.at(c), shortCallee(g)))
+			}
+			ob.Pos = p.at(c)
+		}
+	}
+	switch {
+	case len(bad) > 0:
+		ob.Status, ob.Msg, ob.Path = Violated, "GC drops the prebuilt index of the reader Open builds for a directory without segments; there is no file to load it from again, so every later query of the read-only handle fails", bad
+	case n == 0:
+		ob.Status, ob.Msg = Discharged, "Open builds no reader with a prebuilt index in its no-segments branch"
+	default:
+		ob.Status, ob.Msg = Discharged, "the reader Open builds with a prebuilt index where there are no segment files is flagged as the head and is never unloaded"
+	}
+	return []Ob{ob}
+}
+
+// ---------------------------------------------------------------------------
+// R15b OPEN-WRAPPERS-RELEASE (C19): a function that opens a log (and with it takes the directory lock)
+// and can still fail afterwards closes the log on that failure: its caller gets no handle to close.
+func (p *Prog) openWrappersRelease() []Ob {
+	var obs []Ob
+	ea := p.ErrAtomsCached()
+	takesLock := func(g *ssa.Function) bool {
+		return p.reaches(g, func(h *ssa.Function) bool {
+			n := fullName(h)
+			return strings.HasPrefix(n, "(*"+flockPkg+".Flock).TryLock") || strings.HasPrefix(n, "(*"+flockPkg+".Flock).TryRLock")
+		})
+	}
+	n := 0
+	for _, fn := range p.Funcs {
+		if !srcFunc(fn) || fn.Parent() != nil || funcPkgPath(fn) != pkgRoot || errResultIndex(fn) < 0 {
+			continue
+		}
+		for _, b := range fn.Blocks {
+			for _, ins := range b.Instrs {
+				c, ok := ins.(*ssa.Call)
+				if !ok {
+					continue
+				}
+				g := c.Common().StaticCallee()
+				if g == nil {
+					continue
+				}
+				if o := g.Origin(); o != nil {
+					g = o
+				}
+				if !inModule(g) || g.Blocks == nil || errResultIndex(g) != 1 || g.Signature.Results().Len() != 2 || !takesLock(g) {
+					continue
+				}
+				var handle, errV ssa.Value
+				for _, r := range *c.Referrers() {
+					if ex, ok := r.(*ssa.Extract); ok {
+						if ex.Index == 0 {
+							handle = ex
+						} else {
+							errV = ex
+						}
+					}
+				}
+				if handle == nil || errV == nil {
+					continue
+				}
+				n++
+				ob := Ob{Rule: "R15", Inst: "b:open-wrapper-releases:" + funcLabel(fn), Props: []string{"C19"}, Pos: p.at(c), Func: funcLabel(fn), Nontrivial: true}
+				// Close invoked on the handle (possibly through an interface conversion)
+				isHandle := func(v ssa.Value) bool {
+					for i := 0; i < 4; i++ {
+						if v == handle {
+							return true
+						}
+						switch x := v.(type) {
+						case *ssa.ChangeInterface:
+							v = x.X
+						case *ssa.MakeInterface:
+							v = x.X
+						case *ssa.TypeAssert:
+							v = x.X
+						default:
+							return false
+						}
+					}
+					return false
+				}
+				var closes []*ssa.Call
+				for _, b2 := range fn.Blocks {
+					for _, i2 := range b2.Instrs {
+						if c2, ok := i2.(*ssa.Call); ok && c2.Common().IsInvoke() && c2.Common().Method.Name() == "Close" && isHandle(c2.Common().Value) {
+							closes = append(closes, c2)
+						}
+					}
+				}
+				var bad []string
+				for _, rt := range returnsOf(fn) {
+					if !p.dominatedByNilErr(ea, errV, rt.Block()) {
+						continue // the open itself failed: nothing to release here
+					}
+					ev := returnOperand(rt, errResultIndex(fn))
+					if isNilConst(ev) {
+						continue
+					}
+					at := ea.atomsAt(ev, rt.Block())
+					mayFail := false
+					for a := range at {
+						if a != "nil" {
+							mayFail = true
+						}
+					}
+					if !mayFail {
+						continue
+					}
+					closed := false
+					for _, cc := range closes {
+						if instrDominates(cc, rt) {
+							closed = true
+						}
+					}
+					if !closed {
+						bad = append(bad, p.at(rt)+": an error can be returned here with the log still open and the directory locked")
+					}
+				}
+				if len(bad) > 0 {
+					ob.Status, ob.Msg, ob.Path = Violated, "after a successful open the function can fail without closing the log: the caller has no handle, and the directory lock is kept until the process ends", uniqSorted(bad)
+				} else {
+					ob.Status, ob.Msg = Discharged, "every failure behind the successful open closes the log first (or there is none)"
+				}
+				obs = append(obs, ob)
+			}
+		}
+	}
+	if n == 0 {
+		obs = append(obs, Ob{Rule: "R15", Inst: "b:open-wrapper-releases", Props: []string{"C19"}, Pos: "-", Status: Undecided, Msg: "no function of the root package calls an opener"})
+	}
+	return obs
+}
+
+// ---------------------------------------------------------------------------
+// R18d LOST-RACE-IS-NOT-AN-ANSWER (C08): when the re-validation of a head rewrite fails (a publish
+// landed between the rewrite and the swap), the delete has not looked at the log as it is now. It
+// starts over or fails; it does not return success with nothing deleted, an answer no sequential
+// order of the calls produces for a live, requested offset.
+func (p *Prog) lostRaceIsNotAnAnswer() []Ob {
+	var obs []Ob
+	r := p.R
+	ea := p.ErrAtomsCached()
+	n := 0
+	for _, fn := range p.Funcs {
+		if !srcFunc(fn) || recvNamed(fn) != r.Impl {
+			continue
+		}
+		for _, b := range fn.Blocks {
+			for _, ins := range b.Instrs {
+				c, ok := ins.(*ssa.Call)
+				if !ok {
+					continue
+				}
+				g := c.Common().StaticCallee()
+				if g == nil || recvNamed(g) != r.HeadWriter || errResultIndex(g) < 0 {
+					continue
+				}
+				takesRewrite := false
+				for _, pr := range g.Params {
+					if namedOf(derefPtr(pr.Type())) == r.RewriteSegment {
+						takesRewrite = true
+					}
+				}
+				if !takesRewrite {
+					continue
+				}
+				var errV ssa.Value
+				for _, ref := range *c.Referrers() {
+					if ex, ok := ref.(*ssa.Extract); ok && ex.Index == errResultIndex(g) {
+						errV = ex
+					}
+				}
+				if errV == nil {
+					continue
+				}
+				// module sentinels of the root package the callee returns bare
+				for _, hb := range fn.Blocks {
+					iff, ok := terminator(hb).(*ssa.If)
+					if !ok {
+						continue
+					}
+					t, ok := classifyErrCond(iff.Cond, errV)
+					if !ok || (t.kind != "eq" && t.kind != "is") || !strings.HasPrefix(t.target, "G:"+pkgRoot+".") {
+						continue
+					}
+					edge := 1
+					if t.trueMeans {
+						edge = 0
+					}
+					n++
+					ob := Ob{Rule: "R18", Inst: "d:lost-race:" + funcLabel(fn) + ":" + shortAtom(t.target), Props: []string{"C08"}, Pos: p.at(iff), Func: funcLabel(fn), Nontrivial: true}
+					// what can the edge reach before leaving the function?
+					var bad []string
+					seen := map[*ssa.BasicBlock]bool{}
+					work := []*ssa.BasicBlock{hb.Succs[edge]}
+					for len(work) > 0 {
+						x := work[len(work)-1]
+						work = work[:len(work)-1]
+						if seen[x] {
+							continue
+						}
+						seen[x] = true
+						// only blocks that are entered through this edge alone belong to the branch
+						if x != hb.Succs[edge] && !edgeDominates(hb, edge, x) {
+							continue
+						}
+						if rt, ok := terminator(x).(*ssa.Return); ok {
+							if !ea.isFailureReturn(fn, rt) {
+								// a retry hands on what a further attempt returned
+								retried := false
+								if len(rt.Results) > 0 {
+									if ex, ok := rt.Results[0].(*ssa.Extract); ok {
+										if rc, ok := ex.Tuple.(*ssa.Call); ok && rc.Common().StaticCallee() != nil && recvNamed(rc.Common().StaticCallee()) == r.Impl {
+											retried = true
+										}
+									}
+								}
+								if !retried {
+									bad = append(bad, p.at(rt)+": success is returned (nothing deleted) although the delete never saw the log as it is now")
+								}
+							}
+							continue
+						}
+						work = append(work, x.Succs...)
+					}
+					if len(bad) > 0 {
+						ob.Status, ob.Msg, ob.Path = Violated, "a delete in the head that loses the race against a publish gives up and reports success with nothing deleted: the requested messages are live and stay, which no sequential order of the two calls produces", bad
+					} else {
+						ob.Status, ob.Msg = Discharged, "a head delete that lost the race against a publish starts over or fails"
+					}
+					obs = append(obs, ob)
+				}
+			}
+		}
+	}
+	if n == 0 {
+		obs = append(obs, Ob{Rule: "R18", Inst: "d:lost-race", Props: []string{"C08"}, Pos: "-", Status: Undecided, Msg: "no classification of a head-rewrite re-validation failure found in the log implementation"})
+	}
+	return obs
 }
